@@ -10,6 +10,7 @@
 //	{"a":"start","p":"p1","fam":"v4","fail":""|"addr"|"write","burst":0|1,"inline":""|kind}   inline: hand a message of that kind
 //	                                     (own identifier) to Parse from inside the connection's WriteTo of this ping
 //	{"a":"reply","tgt":"p1"|"noproc","off":k,"kind":"echoReply4|echoReply6|echoRequest|malformed","sub":"..."}
+//	{"a":"close","sess":"s2"}    Session.Close of that session (start events carry "sess"; all sessions share the waiter table)
 //	{"a":"release","p":"p1"}     a ping started with fail "blockfail" hangs inside the connection's WriteTo; let it fail now
 //	{"a":"timeout","p":"p1"}     wait until p's own timer has expired and p returned
 //	{"a":"ret","p":"p1"}         wait until p returned
@@ -72,6 +73,8 @@ type ping struct {
 	id      int // identifier seen on the wire (or leaked), -1 unknown (guarded by driver.mu)
 	ret     bool
 	inline  string        // kind of the message handed to Parse from inside the connection's WriteTo ("" = none)
+	sess    string        // session the ping is called on ("s1", "s2")
+	arg     time.Duration // timeout argument handed to Ping (timeout is the effective one: <= 0 or > 10 s mean 2 s)
 	rng     *rand.Rand    // for the message handed to Parse from inside this ping's send
 	slow    time.Duration // the send hangs this long inside WriteTo and then succeeds
 	release chan struct{} // fail == "blockfail": the send hangs inside WriteTo until this is closed, then fails
@@ -82,9 +85,11 @@ type driver struct {
 	u    *vh.Universe
 	s    *packet.Session
 	conn *vh.HookConn
+	ss   map[string]*sessRec // sessions of the process by name; s / conn are those of "s1"
 	rng  *rand.Rand
 	slot time.Duration
 
+	smu   sync.Mutex // session map
 	injMu sync.Mutex // one injected message at a time
 	mu    sync.Mutex // log order
 	out   *bufio.Writer
@@ -100,6 +105,61 @@ type driver struct {
 	rseed   int64 // seed of the current behaviour's random choices (header variants, malformed shapes)
 	noDrain bool
 	abort   bool
+}
+
+type sessRec struct {
+	s      *packet.Session
+	conn   *vh.HookConn
+	closed bool
+}
+
+// session returns the named session, creating it when needed (all sessions share the process-wide waiter table).
+func (d *driver) session(name string) *sessRec {
+	if name == "" {
+		name = "s1"
+	}
+	d.smu.Lock()
+	defer d.smu.Unlock()
+	if r, ok := d.ss[name]; ok {
+		return r
+	}
+	conn := vh.NewHookConn()
+	s, err := packet.Config{Conn: conn, NICInfo: d.u.NICInfo(), ProbeDeadline: 30 * vh.Unit, OfflineDeadline: 60 * vh.Unit,
+		PurgeDeadline: 120 * vh.Unit}.NewSession("")
+	if err != nil {
+		fmt.Fprintln(os.Stderr, err)
+		os.Exit(2)
+	}
+	conn.OnWrite = d.onWrite
+	conn.Before = d.beforeWrite
+	r := &sessRec{s: s, conn: conn}
+	d.ss[name] = r
+	if name == "s1" {
+		d.s, d.conn = s, conn
+	}
+	return r
+}
+
+// freshSessions replaces the sessions closed by the previous behaviour.
+func (d *driver) freshSessions() {
+	d.smu.Lock()
+	for name, r := range d.ss {
+		if r.closed {
+			delete(d.ss, name)
+		}
+	}
+	d.smu.Unlock()
+	d.session("s1")
+}
+
+func (d *driver) conns() []*vh.HookConn {
+	d.smu.Lock()
+	defer d.smu.Unlock()
+	out := []*vh.HookConn{}
+	for _, r := range d.ss {
+		out = append(out, r.conn)
+	}
+	return out
 }
 
 const margin = 25 * time.Millisecond
@@ -166,10 +226,11 @@ func (d *driver) launch(p *ping, gate chan struct{}) {
 		t0 = time.Now()
 		p.start = t0
 		d.mu.Unlock()
+		sess := d.session(p.sess).s
 		if p.fam == "v4" {
-			err = d.s.Ping(dst, p.timeout)
+			err = sess.Ping(dst, p.arg)
 		} else {
-			err = d.s.Ping6(packet.Addr{MAC: vh.OwnMAC, IP: vh.HostLLA}, dst, p.timeout)
+			err = sess.Ping6(packet.Addr{MAC: vh.OwnMAC, IP: vh.HostLLA}, dst, p.arg)
 		}
 		switch {
 		case err == nil:
@@ -212,7 +273,11 @@ func (d *driver) launch(p *ping, gate chan struct{}) {
 func (d *driver) capture(want []*ping) {
 	deadline := time.Now().Add(60 * time.Millisecond)
 	for {
-		for _, f := range d.conn.Take() {
+		frames := [][]byte{}
+		for _, c := range d.conns() {
+			frames = append(frames, c.Take()...)
+		}
+		for _, f := range frames {
 			fam, dip, typ, id, ok := decodeEcho(f)
 			if !ok {
 				continue
@@ -500,7 +565,11 @@ func (d *driver) injectR(rng *rand.Rand, kind, sub string, id uint16, from *ping
 				rec["panic"] = fmt.Sprint(r)
 			}
 		}()
-		if _, err := d.s.Parse(cp); err != nil {
+		sess := d.s
+		if from != nil {
+			sess = d.session(from.sess).s
+		}
+		if _, err := sess.Parse(cp); err != nil {
 			rec["err"] = err.Error()
 		}
 	}()
@@ -564,6 +633,7 @@ func (d *driver) wait(p *ping) bool {
 
 // behaviour runs one scenario; returns false if the process must stop (a ping hangs).
 func (d *driver) behaviour(bid int, want int, evs []action) bool {
+	d.freshSessions()
 	// move the process-global identifier counter to the requested value (pings that fail to send
 	// take an identifier and return at once)
 	if want >= 0 {
@@ -594,7 +664,9 @@ func (d *driver) behaviour(bid int, want int, evs []action) bool {
 		return false
 	}
 	n, next := packet.VerifPingWaiters()
-	d.conn.Take()
+	for _, c := range d.conns() {
+		c.Take()
+	}
 	d.pings = map[string]*ping{}
 	d.slots = map[string]int{}
 	d.nslots = 0
@@ -648,12 +720,23 @@ func (d *driver) behaviour(bid int, want int, evs []action) bool {
 				if g.i("slow") == 1 {
 					p.slow = p.timeout + 30*time.Millisecond
 				}
+				p.sess, p.arg = g.s("sess"), p.timeout
+				switch g.s("toarg") { // arguments that mean "the default of two seconds"
+				case "zero":
+					p.arg, p.timeout = 0, 2*time.Second
+				case "neg":
+					p.arg, p.timeout = -5*time.Millisecond, 2*time.Second
+				case "big":
+					p.arg, p.timeout = 11*time.Second, 2*time.Second
+				}
+				d.session(p.sess)
 				d.mu.Lock()
 				d.pings[name] = p
-				d.log(map[string]interface{}{"a": "start", "p": name, "fam": p.fam, "to": int(p.timeout / time.Millisecond), "fail": p.fail, "burst": len(group), "inline": p.inline})
+				d.log(map[string]interface{}{"a": "start", "p": name, "fam": p.fam, "to": int(p.timeout / time.Millisecond), "fail": p.fail, "burst": len(group), "inline": p.inline,
+					"sess": p.sess, "toarg": g.s("toarg")})
 				d.mu.Unlock()
 				if p.fail == "write" {
-					d.conn.FailN = 1
+					d.session(p.sess).conn.FailN = 1
 				}
 				d.launch(p, gate)
 				started = append(started, p)
@@ -664,7 +747,7 @@ func (d *driver) behaviour(bid int, want int, evs []action) bool {
 					if !d.wait(p) {
 						return false
 					}
-					d.conn.FailN = 0
+					d.session(p.sess).conn.FailN = 0
 				}
 				if p.fail == "blockfail" { // wait until it hangs inside WriteTo (identifier registered)
 					for i := 0; i < 2000 && d.idOf(p) < 0; i++ {
@@ -689,6 +772,16 @@ func (d *driver) behaviour(bid int, want int, evs []action) bool {
 			d.inject(e.s("kind"), e.s("sub"), id, from, true)
 			if d.abort {
 				return false
+			}
+		case "close": // Session.Close of one session of the process while pings (of this or another session) are pending
+			r := d.session(e.s("sess"))
+			if !r.closed {
+				r.closed = true
+				d.mu.Lock()
+				d.log(map[string]interface{}{"a": "close", "sess": e.s("sess")})
+				d.mu.Unlock()
+				go r.s.Close() // sleeps one second at its end
+				time.Sleep(15 * time.Millisecond)
 			}
 		case "release":
 			if p := d.pings[e.s("p")]; p != nil {
@@ -752,16 +845,8 @@ func main() {
 	d := &driver{rng: rand.New(rand.NewSource(seed)), slot: time.Duration(*slot) * time.Millisecond, out: bufio.NewWriterSize(of, 1<<20)}
 	d.enc = json.NewEncoder(d.out)
 	d.u = &vh.Universe{Cfg: vh.Configs[0]}
-	conn := vh.NewHookConn()
-	s, err := packet.Config{Conn: conn, NICInfo: d.u.NICInfo(), ProbeDeadline: 30 * vh.Unit, OfflineDeadline: 60 * vh.Unit,
-		PurgeDeadline: 120 * vh.Unit}.NewSession("")
-	if err != nil {
-		fmt.Fprintln(os.Stderr, err)
-		os.Exit(2)
-	}
-	d.s, d.conn = s, conn
-	conn.OnWrite = d.onWrite
-	conn.Before = d.beforeWrite
+	d.ss = map[string]*sessRec{}
+	d.session("s1")
 	sc := bufio.NewScanner(in)
 	sc.Buffer(make([]byte, 1<<20), 1<<24)
 	var cur []action
@@ -808,7 +893,11 @@ func main() {
 	d.out.Flush()
 	d.mu.Unlock()
 	of.Close()
-	go s.Close()
+	for _, r := range d.ss {
+		if !r.closed {
+			go r.s.Close()
+		}
+	}
 	res, _ := json.Marshal(map[string]interface{}{"behaviours": behaviours, "lines": d.lines, "panics": d.panics, "hangs": d.hangs})
 	fmt.Fprintln(realStdout, string(res))
 	_ = net.IPv4zero
